@@ -115,6 +115,19 @@ func (g *Gen) num(sc *scope, d int) node {
 		return node{"(" + v + " = " + e.js + ")", fmt.Sprintf("(XAssign %s %s)", cstr(v), e.coq)}
 	case k < 7:
 		v := g.pick(sc.nums)
+		if r.Intn(2) == 0 {
+			// compound assignment whose right operand may itself assign the variable
+			ops := []string{"+=", "-=", "*="}
+			cops := []string{"PAdd", "PSub", "PMul"}
+			i := r.Intn(3)
+			e := g.num(sc, d-1)
+			if r.Intn(2) == 0 {
+				inner := g.num(sc, 0)
+				e = node{"(" + v + " = " + inner.js + ", " + e.js + ")", fmt.Sprintf("(XComma (XAssign %s %s) %s)", cstr(v), inner.coq, e.coq)}
+			}
+			g.Stats["opassign"]++
+			return node{"(" + v + " " + ops[i] + " " + e.js + ")", fmt.Sprintf("(XOpAssign %s %s %s)", cops[i], cstr(v), e.coq)}
+		}
 		return node{"(" + v + "++)", "(XPostInc " + cstr(v) + ")"}
 	case k < 8:
 		c, a, b := g.boolean(sc, d-1), g.num(sc, d-1), g.num(sc, d-1)
@@ -416,6 +429,12 @@ func (g *Gen) stmt(sc *scope, labs []lab, loopDepth int, inLoop bool, ind string
 		inner := append(append([]lab{}, labs...), lab{id, false})
 		b := block(g.list(sc, 1+r.Intn(3), inner, loopDepth, inLoop, in2), in2)
 		return []node{{fmt.Sprintf("L%d: %s", id, b.js), fmt.Sprintf("(JLabelled %d%%nat %s)", id, b.coq)}}
+	case k < 69:
+		// a call whose callee is unresolvable: the ReferenceError comes before the argument is evaluated
+		g.Stats["call-unresolvable"]++
+		a := g.num(sc, 1)
+		return []node{{"try { nowhere(log(" + a.js + ")); } catch (ex) { log(ex); }",
+			fmt.Sprintf("(JTry [JExpr (XCall (XVar %s) [XLog %s])] (Some (%s, [JExpr (XLog (XVar %s))])) None)", cstr("nowhere"), a.coq, cstr("ex"), cstr("ex"))}}
 	case k < 72:
 		g.Stats["throw"]++
 		e := g.num(sc, 1)
